@@ -57,6 +57,7 @@ pub fn worker_main(check: &dyn Check, args: &[String]) -> i32 {
     let mut sent = Checkpoint::default();
     let mut last_hb = Instant::now() - Duration::from_secs(1);
     let mut idx = from;
+    let mut rss_tick = Instant::now();
     // align to shard
     while idx % n != i {
         idx += 1;
@@ -73,6 +74,17 @@ pub fn worker_main(check: &dyn Check, args: &[String]) -> i32 {
             let _ = writeln!(sink.out, "E\t{}\t{}", idx, esc(&msg));
         }
         idx += n;
+        // the subject leaks (reference cycles between a document and its nodes): a worker that has grown
+        // hands the rest of its shard to a fresh process instead of running into the address-space limit
+        if idx < len && cases_since_rss_check(&mut rss_tick) && resident_bytes() > recycle_rss() {
+            sent.flush_delta(&mut sink);
+            for s in sink.samples.clone() {
+                let _ = writeln!(sink.out, "X\t{}", esc(&super::sink::truncate(&s, 1500)));
+            }
+            let _ = writeln!(sink.out, "R\t{}", idx);
+            let _ = sink.out.flush();
+            return 0;
+        }
     }
     sent.flush_delta(&mut sink);
     for s in sink.samples.clone() {
@@ -81,6 +93,40 @@ pub fn worker_main(check: &dyn Check, args: &[String]) -> i32 {
     let _ = writeln!(sink.out, "D");
     let _ = sink.out.flush();
     0
+}
+
+/// user + system CPU time of a process so far, in seconds
+fn process_cpu_seconds(pid: u32) -> Option<f64> {
+    let s = std::fs::read_to_string(format!("/proc/{}/stat", pid)).ok()?;
+    let rest = &s[s.rfind(')')? + 1..];
+    let f: Vec<&str> = rest.split_whitespace().collect();
+    let utime: f64 = f.get(11)?.parse().ok()?;
+    let stime: f64 = f.get(12)?.parse().ok()?;
+    Some((utime + stime) / 100.0)
+}
+
+const RECYCLE_RSS: u64 = 2 << 30;
+
+fn recycle_rss() -> u64 {
+    std::env::var("XMC_RECYCLE_RSS").ok().and_then(|v| v.parse().ok()).unwrap_or(RECYCLE_RSS)
+}
+
+/// at most one look at /proc per 200 ms
+fn cases_since_rss_check(tick: &mut Instant) -> bool {
+    if tick.elapsed() >= Duration::from_millis(200) {
+        *tick = Instant::now();
+        true
+    } else {
+        false
+    }
+}
+
+fn resident_bytes() -> u64 {
+    std::fs::read_to_string("/proc/self/statm")
+        .ok()
+        .and_then(|s| s.split_whitespace().nth(1).and_then(|x| x.parse::<u64>().ok()))
+        .map(|pages| pages * 4096)
+        .unwrap_or(0)
 }
 
 #[derive(Default)]
@@ -132,6 +178,8 @@ struct Agg {
 
 enum Outcome {
     Done,
+    /// the worker asked to be replaced; the shard continues at this case
+    Recycle(u64),
     Crashed(String),
     Hung,
 }
@@ -199,14 +247,23 @@ fn run_child(
 
     let mut last_b: Option<u64> = None;
     let mut done = false;
+    let mut recycle_at: Option<u64> = None;
     let mut hung = false;
     let stage_s = stage.to_string();
     // a worker first reads its input file and prepares its space (on a loaded machine, with a frontier
     // of tens of thousands of states, that alone can take longer than one case): the per-case cap
     // applies from the first heartbeat on
     let mut started = false;
+    // The cap is a cap on the work of one case, not on the patience of the host: when no heartbeat arrives within the
+    // cap, the CPU time the worker has consumed since (about) its last heartbeat decides.  A worker that was given less
+    // than the cap of processor time (a loaded machine) is waited for; only after 20 caps of wall-clock time without a
+    // heartbeat is it given up regardless.
+    let pid = child.id();
+    let mut cpu_sample = 0.0f64;
+    let mut cpu_sampled_at = Instant::now();
+    let mut last_progress = Instant::now();
+    let mut wait = cap.max(300.0);
     loop {
-        let wait = if started { cap } else { cap.max(300.0) };
         match rx.recv_timeout(Duration::from_secs_f64(wait)) {
             Ok(line) => {
                 let mut parts = line.split('\t');
@@ -214,9 +271,20 @@ fn run_child(
                     Some("B") => {
                         started = true;
                         last_b = parts.next().and_then(|x| x.parse().ok());
+                        last_progress = Instant::now();
+                        wait = cap;
+                        if cpu_sampled_at.elapsed() >= Duration::from_secs(1) {
+                            if let Some(c) = process_cpu_seconds(pid) {
+                                cpu_sample = c;
+                            }
+                            cpu_sampled_at = Instant::now();
+                        }
                     }
                     Some("D") => {
                         done = true;
+                    }
+                    Some("R") => {
+                        recycle_at = parts.next().and_then(|x| x.parse().ok());
                     }
                     Some("C") => {
                         let k = unesc(parts.next().unwrap_or(""));
@@ -279,6 +347,13 @@ fn run_child(
                 }
             }
             Err(mpsc::RecvTimeoutError::Timeout) => {
+                let limit = if started { cap } else { cap.max(300.0) };
+                let used = process_cpu_seconds(pid).map(|c| c - cpu_sample);
+                let starved = matches!(used, Some(u) if u < 0.9 * limit);
+                if starved && last_progress.elapsed().as_secs_f64() < 20.0 * limit {
+                    wait = (limit - used.unwrap_or(0.0)).max(1.0);
+                    continue;
+                }
                 hung = true;
                 let _ = child.kill();
                 break;
@@ -294,6 +369,9 @@ fn run_child(
     }
     if done {
         return (Outcome::Done, last_b);
+    }
+    if let Some(k) = recycle_at {
+        return (Outcome::Recycle(k), last_b);
     }
     let desc = match status {
         Ok(st) => {
@@ -337,10 +415,18 @@ fn supervise_shard(
     let mut from = i;
     let mut careful = false;
     let mut crashes = 0;
+    let mut recycles = 0u64;
     while from < len {
         let (out, last_b) = run_child(exe, check.id(), tier, stage, i, n, from, careful, input_file, cap, agg);
         match out {
             Outcome::Done => return,
+            Outcome::Recycle(k) => {
+                from = k;
+                careful = false;
+                recycles += 1;
+                let _ = recycles;
+                continue;
+            }
             Outcome::Crashed(_) | Outcome::Hung if last_b.is_none() => {
                 let mut a = agg.lock().unwrap();
                 let why = match out {
